@@ -141,6 +141,10 @@ def click_defaults(ctx, fn):
             is_flag = const(kw.get("is_flag"), False) or any("/" in n for n in longs)
             multiple = const(kw.get("multiple"), False)
             out[pname] = const(kw.get("default"), False if is_flag else (() if multiple else None))
+            tnode = kw.get("type")
+            if isinstance(tnode, ast.Call) and (idx.canon(tnode.func, fn.module) or "") in ("click.Path", "click.types.Path") and isinstance(out[pname], str) \
+                    and any(k.arg == "path_type" and (idx.canon(k.value, fn.module) or "").startswith("pathlib.") for k in tnode.keywords):
+                out[pname] = PathTok(out[pname])      # click converts the value (the default too) to the declared path type
         if "callback" in kw:
             try:
                 v_ = click_callback(ctx, fn, d, out[pname], pname)
@@ -993,8 +997,9 @@ def eval_cli_main(ctx, found=True, flag_backend=None, flag_no_color=None, config
     res = {"events": events, "mkdir": [], "mkdir_kw": [], "config_path": None, "colour_disabled": False, "context": None, "init": None, "prompt": False, "raised": None,
            "logging": None}
 
-    def h_find(path_spec="workflow.py:gwf"):
+    def h_find(path_spec="workflow.py:gwf", *more, **kmore):
         events.append(("find_workflow", path_spec))
+        res["find_args"] = (tuple(more), dict(kmore))
         if not found:
             raise Raised("FileNotFoundError", "no workflow file")
         return (PathTok(PROJ + "/workflow.py"), "gwf")
@@ -1055,11 +1060,19 @@ def eval_cli_main(ctx, found=True, flag_backend=None, flag_no_color=None, config
     cobj = Obj("click_ctx", obj={})
     try:
         # options added to the group later are passed the way click passes an option that is not given (its declared default, through its callback)
-        given = dict(zip(main.positional_params(), (cobj, "workflow.py:gwf", flag_backend, verbose, flag_no_color)))
+        pnames = main.positional_params()
+        known = {"file": "workflow.py:gwf", "backend": flag_backend, "verbose": verbose, "no_color": flag_no_color}
         dflt = click_defaults(ctx, main)
-        extra = {p_: dflt[p_] for p_ in main.positional_params()[5:] if p_ in dflt}
-        extra.update(extra_options or {})
-        interp.call(main, tuple(given.values()), extra)
+        kwargs_ = {}
+        for p_ in pnames[1:]:
+            if p_ in known:
+                kwargs_[p_] = known[p_]
+            elif p_ in dflt:
+                kwargs_[p_] = dflt[p_]
+        if not set(known) <= set(pnames):
+            return None, "Unsupported: the group callback's parameters are not the known ones"
+        kwargs_.update(extra_options or {})
+        interp.call(main, (cobj,), kwargs_)
     except Raised as exc:
         res["raised"] = exc.kind  # an outcome of the evaluated code, not a limitation of the evaluator
     except Unsupported as exc:
@@ -1095,6 +1108,18 @@ def cli_main_location_witness(ctx):
         if res["raised"]:
             diffs.append(f"workflow {'found' if found else 'not found'}: the group callback ends with {res['raised']}")
             continue
+        # a path relative to the invoking directory (".", "./x") denotes the same place as the invoking directory itself
+        def _anch(p_):
+            p_ = str(p_)
+            return tok("CWD") if p_ == "." else tok("CWD") + p_[1:] if p_.startswith("./") else p_
+        res["mkdir"] = [_anch(p_) for p_ in res["mkdir"]]
+        res["config_path"] = _anch(res["config_path"]) if res["config_path"] is not None else None
+        if res["init"] is not None:
+            res["init"] = _anch(res["init"])
+        if res["context"]:
+            for k_ in ("working_dir", "workflow_file"):
+                if isinstance(res["context"].get(k_), str):
+                    res["context"][k_] = _anch(res["context"][k_])
         if any(k.get("exist_ok") is not True for k in res["mkdir_kw"]):
             diffs.append("the state directories are created without exist_ok=True: every invocation after the first fails with FileExistsError")
         want_mk = {base + "/.gwf", base + "/.gwf/logs"}
@@ -1781,16 +1806,26 @@ def eval_enqueue(ctx):
 
 
 # --------------------------------------------------------------------------- find_workflow on a symbolic directory tree
-def eval_find_workflow(ctx, spec, cwd, existing, links=None, env=None):
+def eval_find_workflow(ctx, spec, cwd, existing, links=None, env=None, more_args=(), more_kwargs=None):
     """utils.find_workflow(spec) with the invoking directory `cwd` and the set of existing files; returns (path, obj) / 'raise <kind>' / '<unsupported>'."""
     import posixpath
     fw = ctx.index.func("gwf.utils:find_workflow")
 
     def P(x):
-        return PathTok(str(x))
+        # pathlib's own tidying of a path string: no "./" components, no doubled or trailing slashes; "" is "."
+        s_ = str(x)
+        if s_ in ("", "."):
+            return PathTok(".")
+        lead = "/" if s_.startswith("/") else ""
+        parts = [c for c in s_.split("/") if c not in ("", ".")]
+        return PathTok(lead + "/".join(parts) if parts or lead else ".")
 
     def h_join(recv, *parts):
         return P(posixpath.join(str(recv), *[str(p) for p in parts]))
+
+    def absol(p_):
+        p_ = str(p_)
+        return posixpath.normpath(p_ if p_.startswith("/") else posixpath.join(cwd, p_))
 
     links = dict(links or {})
 
@@ -1815,9 +1850,9 @@ def eval_find_workflow(ctx, spec, cwd, existing, links=None, env=None):
         "pathlib.Path.cwd": lambda: P(cwd), "os.getcwd": lambda: cwd,
         "attr:is_absolute": lambda recv: str(recv).startswith("/"),
         "attr:joinpath": h_join,
-        "attr:exists": lambda recv: (looked.append(str(recv)) or str(recv) in existing),
-        "attr:is_file": lambda recv: (looked.append(str(recv)) or str(recv) in existing),
-        "getattr:parent": lambda o: P(posixpath.dirname(str(o))),
+        "attr:exists": lambda recv: (looked.append(str(recv)) or str(recv) in existing or (not str(recv).startswith("/") and absol(recv) in {posixpath.normpath(e_) for e_ in existing})),
+        "attr:is_file": lambda recv: (looked.append(str(recv)) or str(recv) in existing or (not str(recv).startswith("/") and absol(recv) in {posixpath.normpath(e_) for e_ in existing})),
+        "getattr:parent": lambda o: P(posixpath.dirname(str(o)) or "."),
         "getattr:anchor": lambda o: "/" if str(o).startswith("/") else "",
         "getattr:parents": lambda o: [P(p) for p in _parents(str(o))],
         "attr:resolve": h_resolve, "os.path.realpath": lambda p_, *a, **k: str(h_resolve(p_)), "attr:readlink": lambda recv: P(links.get(str(recv), str(recv))),
@@ -1833,8 +1868,9 @@ def eval_find_workflow(ctx, spec, cwd, existing, links=None, env=None):
     hooks.update({"os.environ.get": lambda k_, d_=None: env.get(k_, d_), "os.getenv": lambda k_, d_=None: env.get(k_, d_),
                   "os.environ.__getitem__": lambda k_: env[k_], "os.environ.__contains__": lambda k_: k_ in env})
     interp = PureInterp(ctx, hooks=hooks)
+    interp.max_loop = 64
     try:
-        res = interp.call(fw, (spec,))
+        res = interp.call(fw, (spec,) + tuple(more_args), dict(more_kwargs or {}))
     except Raised as exc:
         return f"raise {exc.kind}", looked
     except Unsupported as exc:
@@ -1877,13 +1913,21 @@ def find_workflow_witness(ctx):
     ]
     diffs, n = [], 0
     import posixpath as _pp
+    # the call as the group callback makes it: whatever further arguments cli.main passes (a start directory, a flag) are passed here as well
+    more_a, more_k = (), {}
+    try:
+        res_m, err_m = eval_cli_main(ctx)
+        if err_m is None and res_m.get("find_args"):
+            more_a, more_k = res_m["find_args"]
+    except (Raised, Unsupported):
+        pass
     for row in rows:
         label, spec, cwd, existing, want = row[:5]
         links = row[5] if len(row) > 5 else None
         env = row[6] if len(row) > 6 else None
-        got, looked = eval_find_workflow(ctx, spec, cwd, existing, links, env)
+        got, looked = eval_find_workflow(ctx, spec, cwd, existing, links, env, more_a, more_k)
         if isinstance(got, tuple) and isinstance(got[0], str):
-            got = (_pp.normpath(got[0]), got[1])      # '..' collapsed or not is the same location
+            got = (_pp.normpath(got[0] if got[0].startswith("/") else _pp.join(cwd, got[0])), got[1])      # '..' collapsed or not, relative to the invoking directory or absolute: the same location
         if isinstance(got, str) and got.startswith("<unsupported") and "loop bound" in got:
             got = "no termination (the search never stops at the root directory)"
         if isinstance(got, str) and got.startswith("<unsupported"):
